@@ -51,7 +51,8 @@ func c17Layout(k int, today int) string {
 	case 3:
 		return d(-1) + "\n    0:00 - ?\n"
 	case 4:
-		return d(-1) + "\n    23:00 - ?\n\n" + d(0) + "\n    0:00-?\n"
+		// (not in chronological order: today's record stands behind a later-dated one)
+		return d(-1) + "\n    23:00 - ?\n\n" + d(1) + "\n    1h\n\n" + d(0) + "\n    0:00-?\n"
 	case 5:
 		return d(-1) + "\n    2h\n"
 	case 6:
@@ -270,6 +271,36 @@ func (x *c17X) now(day sm.Date, minute, lay int) {
 	if r.Panicked {
 		c.Violation("panic:total-now:"+fw.PanicSite(r.Stack), cs, fmt.Sprintf("`klog total --now` %s panicked: %v\n%s", at, r.PanicVal, r.Stack))
 		return
+	}
+	// the other evaluation commands under --now: the same refusal / the same total
+	for _, oc := range []struct {
+		name string
+		cmd  clidrv.Runner
+	}{
+		{"report --now", &cli.Report{AggregateBy: "day", NowArgs: cliutil.NowArgs{Now: true}, DecimalArgs: cliutil.DecimalArgs{Decimal: true}, NoStyleArgs: cliutil.NoStyleArgs{NoStyle: true}, WarnArgs: cliutil.WarnArgs{NoWarn: true}, InputFilesArgs: fileArgs(path)}},
+		{"tags --now", &cli.Tags{NowArgs: cliutil.NowArgs{Now: true}, DecimalArgs: cliutil.DecimalArgs{Decimal: true}, NoStyleArgs: cliutil.NoStyleArgs{NoStyle: true}, WarnArgs: cliutil.WarnArgs{NoWarn: true}, InputFilesArgs: fileArgs(path)}},
+		{"json --now", &cli.Json{NowArgs: cliutil.NowArgs{Now: true}, InputFilesArgs: fileArgs(path)}},
+	} {
+		ro := clidrv.Exec(x.home, opts, oc.cmd)
+		if ro.Panicked {
+			c.Violation("panic:"+oc.name+":"+fw.PanicSite(ro.Stack), cs, fmt.Sprintf("`klog %s` %s panicked: %v\n%s", oc.name, at, ro.PanicVal, ro.Stack))
+			return
+		}
+		if !ok && ro.Code == 0 {
+			c.Violation("now-not-refused", cs, fmt.Sprintf("`klog %s` %s must refuse (an open range cannot be closed at that instant) but printed %q\nfile: %q", oc.name, at, ro.Stdout, text))
+			return
+		}
+		if ok && ro.Code != 0 {
+			c.Violation("now-refused-wrongly", cs, fmt.Sprintf("`klog %s` %s failed (exit %d %s) although every open range can be closed\nfile: %q", oc.name, at, ro.Code, ro.Err, text))
+			return
+		}
+		if ok && oc.name == "report --now" {
+			lines := strings.Split(strings.TrimRight(ro.Stdout, "\n"), "\n")
+			if g := strings.TrimSpace(lines[len(lines)-1]); g != strconv.Itoa(sm.Total(closed)) {
+				c.Violation("now-total", cs, fmt.Sprintf("`klog report --now` %s ends with grand total %q, expected %d minutes\nfile: %q", at, g, sm.Total(closed), text))
+				return
+			}
+		}
 	}
 	if !ok {
 		c.Outcome("now-refused")
